@@ -89,7 +89,7 @@ func (a *Real32) ConvertMagicScalar(t ScalarType) MagicScalar {
   case Real32Type:
     return a
   default:
-    r := NullScalar(t).(MagicScalar)
+    r := NullMagicScalar(t)
     r.Set(a)
     return r
   }
